@@ -1031,7 +1031,9 @@ func vfC01CaseSettle(t *rapid.T, c *vfC01Conf, w *vfWorld, run func(q vfQuery) *
 		// a name that a blocking rule matches: the allow rule is about the
 		// name that was asked, and its answer reaches the client intact.
 		var aliasAnswer func(req *dns.Msg) (resp *dns.Msg)
-		if blockedName := c.aliasTarget(); blockedName != "" && (want.Why == "allowlist" || want.Why == "exception") &&
+		// (Not with the DNS cache on: a cached answer of this kind is rightly
+		// filtered once a later run-time change has taken the allow rule away.)
+		if blockedName := c.aliasTarget(); c.cacheSeen == nil && blockedName != "" && (want.Why == "allowlist" || want.Why == "exception") &&
 			(q.Qtype == dns.TypeA || q.Qtype == dns.TypeAAAA) && rapid.IntRange(0, 1).Draw(t, fmt.Sprintf("q%d_blocked_alias", i)) == 0 {
 			aliasAnswer = func(req *dns.Msg) (resp *dns.Msg) {
 				resp = (&dns.Msg{}).SetReply(req)
